@@ -76,6 +76,34 @@ pub trait Monitor: Sync {
     fn assumptions(&self) -> Vec<&'static str> {
         vec![]
     }
+    /// The very first calls into the crate of this process, made by several threads at the same
+    /// instant (`race_start`): lazily initialised shared state must not show. Default: nothing.
+    fn cold_start(&self, _rec: &mut Recorder) {}
+}
+
+/// Runs `f(i)` on `n` threads that are released together by a spin barrier; returns the results.
+pub fn race_start<R: Send>(n: usize, f: impl Fn(usize) -> R + Sync) -> Vec<R> {
+    let ready = std::sync::atomic::AtomicUsize::new(0);
+    let go = AtomicBool::new(false);
+    std::thread::scope(|sc| {
+        let hs: Vec<_> = (0..n)
+            .map(|i| {
+                let (ready, go, f) = (&ready, &go, &f);
+                sc.spawn(move || {
+                    ready.fetch_add(1, Ordering::SeqCst);
+                    while !go.load(Ordering::Acquire) {
+                        std::hint::spin_loop();
+                    }
+                    f(i)
+                })
+            })
+            .collect();
+        while ready.load(Ordering::SeqCst) < n {
+            std::hint::spin_loop();
+        }
+        go.store(true, Ordering::Release);
+        hs.into_iter().filter_map(|h| h.join().ok()).collect()
+    })
 }
 
 pub struct RunCfg {
@@ -178,6 +206,13 @@ pub fn run(monitor: &dyn Monitor, cfg: &RunCfg) -> i32 {
     );
 
     let mut merged = Recorder::new(shift);
+    if cfg.tier != Tier::Miri && cfg.shard.0 == 0 && cfg.only_stream.is_none() {
+        // before anything else touches the crate in this process
+        let mut rec = Recorder::new(shift);
+        rec.cur_stream = "cold-start".to_string();
+        monitor.cold_start(&mut rec);
+        merged.merge(rec);
+    }
     let suspect: Option<(usize, u64)> = std::thread::scope(|scope| {
         let mut handles = Vec::new();
         for t in 0..threads {
